@@ -163,6 +163,10 @@ def r1(prog, run, enc, dec):
         for n in f.nodes:
             if n['k'] == 'var' and n.get('vk') == 'global' and n['name'].startswith('STUN_'):
                 s.add(n['name'])
+        for b in f.blocks.values():
+            for c in (b.get('term') or {}).get('cases', []):
+                if isinstance(c, dict) and (c.get('cvar') or '').startswith('STUN_'):
+                    s.add(c['cvar'])                      # case STUN_IPV4:
         ints = sorted({n['v'] for n in f.nodes if n['k'] == 'int' and n['v'] in (4, 8, 16, 20)})
         return s, ints
     ce, ie = consts(ea)
@@ -396,9 +400,13 @@ def r5(prog, run):
                       % (len(got), diff[0] if diff else 'length'))
     f = prog.fn('QXmppUtils::generateCrc32')
     run.instance(rid)
-    ints = [n['v'] & 0xffffffff for n in f.nodes if n['k'] == 'int']
-    txt = ' '.join(f.fmt(i, inline=False) for i in range(len(f.nodes)) if f.nodes[i]['k'] in ('decl', 'ret', 'assign'))
-    if ints.count(0xffffffff) >= 2 and '>> 8' in txt and 'crctable[' in txt and '& 255' in txt.replace('0xff', '255'):
+    # the driver may be a loop or a fold over a step lambda: look at the function together with its lambdas
+    parts = [f] + prog.lambdas_in(f)
+    ints = [n['v'] & 0xffffffff for g in parts for n in g.nodes if n['k'] == 'int']
+    txt = ' '.join(g.fmt(i, inline=False) for g in parts for i in range(len(g.nodes)) if g.nodes[i]['k'] in ('decl', 'ret', 'assign'))
+    inverts = any(n['k'] == 'un' and n.get('op') == '~' for g in parts for n in g.nodes)       # ~x == x ^ 0xffffffff on quint32
+    final_xor = ints.count(0xffffffff) >= 2 or (ints.count(0xffffffff) >= 1 and inverts)
+    if final_xor and '>> 8' in txt and 'crctable[' in txt and '& 255' in txt.replace('0xff', '255'):
         run.ok(rid, f.loc(), 'generateCrc32: init 0xffffffff, table step (r >> 8) ^ T[(r & 0xff) ^ byte], final xor 0xffffffff')
     else:
         run.violation(rid, 'generateCrc32#shape', f.loc(), 'CRC-32 driver does not have the standard init / step / final xor: %s' % txt[:120])
@@ -611,7 +619,7 @@ def r9(prog, run, enc):
     fam_conds = []
     for b in ea.blocks.values():
         t = b.get('term')
-        if t and t.get('k') == 'if' and 'cond' in t:
+        if t and t.get('k') in ('if', 'switch', 'cond') and 'cond' in t:
             fam_conds.append(t['cond'])
     uses_protocol = any('QHostAddress::protocol()' in ea.fmt(c, inline=True) for c in fam_conds)
     out_param = [i for i, n in ea.calls('QHostAddress::toIPv4Address') if n.get('args') and ea.nodes[n['args'][0]]['k'] != 'defarg']
